@@ -162,13 +162,13 @@ class ILC(Ansatz):
                                  f"{self.supported_initial_var_params}")
             # Initialize the ILC wave function as |ILC> = |QMF>
             if var_params == "qmf_state":
-                initial_var_params = np.zeros((self.n_var_params,), dtype=float)
+                initial_var_params = np.zeros((self.n_ilc_params,), dtype=float)
             # Initialize all ILC parameters to the same value specified by self.ilc_tau_guess
             elif var_params == "ilc_tau_guess":
-                initial_var_params = self.ilc_tau_guess * np.ones((self.n_var_params,))
+                initial_var_params = self.ilc_tau_guess * np.ones((self.n_ilc_params,))
             # Initialize tau parameters randomly over the domain [0., 2 pi)
             elif var_params == "random":
-                initial_var_params = 2. * np.pi * np.random.random((self.n_var_params,))
+                initial_var_params = 2. * np.pi * np.random.random((self.n_ilc_params,))
             # Initialize ILC parameters by matrix diagonalization (see Appendix B, Refs. 1 & 2).
             elif var_params == "diag":
                 initial_var_params = get_ilc_params_by_diag(self.qubit_ham, self.acs, self.qmf_var_params)
